@@ -122,6 +122,14 @@ def _jobs(tier, seed):
             j["allcombos"] = True
         if i % 9 == 4 and not j.get("list"):
             j["debug"] = True
+    # witnesses of finding D47 under every option combination: SLR FOLLOW sets allow the reduction of an empty production on STOP in a state
+    # whose goto on that nonterminal is the state itself; with the shift/EMPTY-reduction conflict resolved by a strategy the parser is built
+    for prods in ([("S", ("A", "S", "A")), ("S", ("b", "b", "A")), ("A", ())],
+                  [("S", ("A", "S")), ("S", ("b",)), ("A", ())],
+                  [("S", ("A", "B", "S", "c")), ("S", ("b",)), ("A", ()), ("B", ())]):
+        g = {"prods": prods, "terms": gen.PLAIN_TERMS}
+        words = list(gen.token_strings([t[2] for t in g["terms"]], 3))
+        jobs.append({"g": g, "inputs": ["".join(w) for w in words] + [" ", "\n", " b b ", "b\nb"], "origin": "det", "consume": True, "allcombos": True})
     # Grammar.from_string(..., ignore_case=True): the tokens are the text of the INPUT, in its own case (finding D38: a string
     # terminal's node carried the grammar's spelling, so the leaves no longer spelled the input)
     rng = random.Random(31344)
